@@ -77,16 +77,26 @@ def run(name, tier="quick", pid=None):
     d = os.path.join(SEEDED, name)
     meta = json.load(open(os.path.join(d, "meta.json")))
     pid = pid or meta["property"]
-    rc, out = sh("git -C /repo status --porcelain --untracked-files=no")
-    assert out.strip() == "", "/repo has local modifications: " + out
-    rc, out = sh("git -C /repo apply %s" % os.path.join(d, "patch.diff"))
+    wt = os.environ.get("SEED_WT")
+    if wt:
+        # run against a scratch worktree of /repo's HEAD instead of /repo itself (used while other runs read /repo)
+        if not os.path.isdir(wt):
+            rc, out = sh("git -C /repo worktree add -q --detach %s HEAD" % wt)
+            assert rc == 0, out
+        sh("git -C %s checkout -q --detach %s && git -C %s checkout -- ." % (wt, sh("git -C /repo rev-parse HEAD")[1].strip(), wt))
+        target, env = wt, {"VERIF_OUT": "/tmp/seedout_wt", "ROPE_REPO": wt}
+    else:
+        target, env = "/repo", {"VERIF_OUT": "/tmp/seedout"}
+    rc, out = sh("git -C %s status --porcelain --untracked-files=no" % target)
+    assert out.strip() == "", "%s has local modifications: %s" % (target, out)
+    rc, out = sh("git -C %s apply %s" % (target, os.path.join(d, "patch.diff")))
     if rc != 0:
         print(name, "PATCH DOES NOT APPLY", out[-300:])
         return None
     try:
-        rc, out = sh("./check %s --tier %s" % (pid, tier), cwd=VERIF, env={"VERIF_OUT": "/tmp/seedout"})
+        rc, out = sh("./check %s --tier %s" % (pid, tier), cwd=VERIF, env=env)
     finally:
-        sh("git -C /repo checkout -- .")
+        sh("git -C %s checkout -- ." % target)
     viol = [l for l in out.splitlines() if l.startswith("VIOLATION")]
     head = [l for l in out.splitlines() if l.startswith(pid + " tier")]
     print("%-28s %s %s exit=%d  %s  %s" % (name, pid, tier, rc, "DETECTED" if rc == 1 and viol else "MISSED" if rc == 0 else "HARNESS?",
